@@ -39,5 +39,5 @@ def burst_histories(r, thorough):
 
 
 def run(tier, replay=None):
-    return srvprops.run(PROP, THEOREMS, tier, replay, extra_gen=lambda r, th: burst_histories(r, th) + sl.split_histories(r, th),
-                        rule_note="plus pipelined bursts of 5-300 requests in one write (in-flight limit 512); plus request headers split over two writes with server-to-client traffic on the same connection in between")
+    return srvprops.run(PROP, THEOREMS, tier, replay, extra_gen=lambda r, th: burst_histories(r, th) + sl.split_histories(r, th) + sl.oversize_histories(r, th),
+                        rule_note="plus pipelined bursts of 5-300 requests in one write (in-flight limit 512); plus request headers split over two writes with server-to-client traffic on the same connection in between; plus small message buffers with long names (replies that do not fit must come back as RESPONSE_TOO_LARGE with the request's id)")
